@@ -169,3 +169,36 @@ Proof.
   rewrite (obj_skip_arr_exact false o tail W) in F. exact F.
 Qed.
 Print Assumptions C07_source_obj_skip_arr_exact.
+
+(* skipping and reading side by side one level up, both from the source: on the bytes of any well-formed column slice without
+   properties (plain or run-length values) followed by anything, sbdf_cs_read (no allocation failing) returns OK, hands out
+   the slice and leaves the stream at exactly the trailing bytes - where sbdf_cs_skip (C07_source_cs_skip_exact) leaves it *)
+From Sbdf Require Import ImpFactsCsRead.
+Theorem C07_source_cs_read_exact : forall rf rp fo po k m h c tail, k < 0 -> wf_cs c -> csprops c = [] -> venc (csvals c) <> SBDF_BITARRAYENCODINGTYPEID ->
+  Forall byte (enc_cs false c ++ tail) ->
+  exists f0, forall f, (f0 <= f)%nat -> exists fin,
+    callC prog_env f prog_sbdf_cs_read [VPtr rf fo; VPtr rp po] m k (enc_cs false c ++ tail) h = OReturn (VInt SBDF_OK) fin /\
+    Imp.lookup strm_var (vars fin) = Some (VBytes tail) /\ Imp.lookup "*out" (vars fin) = Some (VCell (List.length h) 0).
+Proof.
+  intros rf rp fo po k m h c tail Hk (Wv & Bv & _ & _) Hp Hne Hb.
+  assert (ESX : enc_cs false c ++ tail = [223; 91; SBDF_COLUMNSLICE_SECTIONID] ++ (enc_va false (csvals c) ++ enc32 false 0 ++ tail)).
+  { unfold enc_cs. rewrite Hp. cbn [map List.concat zlen List.length Z.of_nat]. rewrite app_nil_r, <- !app_assoc. reflexivity. }
+  rewrite ESX in *.
+  destruct (rspec_sec_expect SBDF_COLUMNSLICE_SECTIONID) as [E0 _].
+  destruct (rspec_va false (csvals c) Wv Bv) as [EV _].
+  destruct (rspec_int32 false 0 ltac:(unfold i32_range; lia)) as [E32 _].
+  assert (NB : forall s1, sec_expect SBDF_COLUMNSLICE_SECTIONID ([223; 91; SBDF_COLUMNSLICE_SECTIONID] ++ enc_va false (csvals c) ++ enc32 false 0 ++ tail) = Ok (tt, s1) -> forall t s2, s1 <> 3 :: t :: s2).
+  { intros s1 E. rewrite E0 in E. assert (Y : s1 = enc_va false (csvals c) ++ enc32 false 0 ++ tail) by congruence. subst s1. intros t s2 X. unfold enc_va in X. cbn [app] in X. injection X as X _. destruct Wv; cbn [venc] in *; try discriminate X. apply Hne. reflexivity. }
+  assert (CNT : forall s1 va s2 v s3, sec_expect SBDF_COLUMNSLICE_SECTIONID ([223; 91; SBDF_COLUMNSLICE_SECTIONID] ++ enc_va false (csvals c) ++ enc32 false 0 ++ tail) = Ok (tt, s1) ->
+                 Va.va_read false None s1 = Ok (va, s2) -> read_int32 false s2 = Ok (v, s3) -> v <= 0).
+  { intros s1 va s2 v s3 E A R. rewrite E0 in E. assert (Y : s1 = enc_va false (csvals c) ++ enc32 false 0 ++ tail) by congruence. subst s1. rewrite (EV (enc32 false 0 ++ tail)) in A. assert (Y : s2 = enc32 false 0 ++ tail) by congruence. subst s2. rewrite (E32 tail) in R. assert (v = 0) by congruence. lia. }
+  destruct (cs_read_source rf rp fo po k _ m h Hb NB CNT) as (f0 & F). exists f0. intros f Hf.
+  destruct (F f Hf) as (st & fin & C & _ & Out & MOK).
+  assert (st = SBDF_OK).
+  { apply (MOK Hk). exists (enc_va false (csvals c) ++ enc32 false 0 ++ tail), (csvals c), (enc32 false 0 ++ tail), tail. split; [apply E0|split; [apply (EV (enc32 false 0 ++ tail))|apply (E32 tail)]]. }
+  subst st. exists fin. split; [exact C|].
+  destruct Out as [(_ & Ho & (s1 & va & s2 & s3 & A1 & A2 & A3 & A4) & _)|(Hn & _)]; [|unfold SBDF_OK in Hn; lia].
+  split; [|exact Ho].
+  rewrite E0 in A1. assert (Y : s1 = enc_va false (csvals c) ++ enc32 false 0 ++ tail) by congruence. subst s1. rewrite (EV (enc32 false 0 ++ tail)) in A2. assert (Y : s2 = enc32 false 0 ++ tail) by congruence. subst s2. rewrite (E32 tail) in A3. assert (Y : s3 = tail) by congruence. subst s3. exact A4.
+Qed.
+Print Assumptions C07_source_cs_read_exact.
